@@ -193,8 +193,8 @@ func checkC19(ctx *Ctx, r *Report) {
 		c19CheckFunc(ctx, r, o, f.fd, f.obj)
 	}
 	r.Floor("orderedmap functions", 12)
-	r.Floor("omap writers classified", 4)
-	r.Floor("omap observer loops", 5)
+	r.Floor("omap writers classified", 3)
+	r.Floor("omap observer loops", 3)
 
 	c19Callers(ctx, r, o)
 }
